@@ -19,6 +19,7 @@ REFILL_OK = {
     "backend": "top of the driver loop, once per iteration",
     "clear_state": "driver state reset before the loop",
     "call_heart_beat": "per heart_beat call",
+    "process_user_command": "per buffered user command: one per user and backend cycle (turn flags), so the number of refills per cycle is bounded by the number of connections",
     "call_out": "per call_out of the sweep, like a heart_beat (a call_out made by a callback lands at least one second ahead of the clock, outside the running sweep, so the number of refills per sweep is bounded by what was pending)",
     "look_for_objects_to_swap": "per object reset/clean_up",
     "preload_objects": "per preloaded file",
